@@ -100,12 +100,26 @@ func exoticCtx() pongo2.Context {
 		"fnany": func(a any) any { return a }, "fnnil": func() any { return nil }, "fn3out": func() (int, int, int) { return 1, 2, 3 }, "fn0out": func() {},
 		"fnsafe": func() *pongo2.Value { return pongo2.AsSafeValue("<b>") }, "fnbad2": func() (string, string) { return "a", "b" },
 		"val": pongo2.AsValue(3), "sval": pongo2.AsSafeValue("<i>"), "err": errors.New("an error"),
+		// parameters of pointer, struct, container and interface types
+		"fnp": func(p *exStruct) string {
+			if p == nil {
+				return "nil"
+			}
+			return p.A
+		},
+		"fnst": func(s exStruct) string { return s.A }, "fnl": func(l []int) int { return len(l) }, "fnm": func(m map[string]int) int { return len(m) },
+		"fntm": func(t *time.Time) bool { return t == nil }, "fnstr": func(s fmt.Stringer) bool { return s == nil }, "fnerrarg": func(e error) bool { return e == nil },
+		"fnpp": func(p **exStruct, q *[3]int) bool { return p == nil && q == nil },
 	}
 }
 
 var exNames = []string{"s", "e", "bad", "uni", "num", "fl", "i", "z", "neg", "i8", "i64min", "i64max", "u", "u8", "u64max", "f", "nan", "inf", "ninf", "negz", "big", "tiny", "f32",
 	"t", "ff", "n", "l", "le", "ls", "la", "lnil", "by", "arr", "parr", "arr0", "m", "im", "fm", "bm", "am", "mnil", "mm", "st", "pst", "ppst", "nilst", "niliface", "emb",
-	"sv", "si", "tm", "ptm", "niltm", "dur", "fn0", "fn1", "fnv", "fnval", "fnerr", "fnctx", "fn2", "fnany", "fnnil", "fn3out", "fn0out", "fnsafe", "fnbad2", "val", "sval", "err", "undefined"}
+	"sv", "si", "tm", "ptm", "niltm", "dur", "fn0", "fn1", "fnv", "fnval", "fnerr", "fnctx", "fn2", "fnany", "fnnil", "fn3out", "fn0out", "fnsafe", "fnbad2", "val", "sval", "err", "undefined",
+	"fnp", "fnst", "fnl", "fnm", "fntm", "fnstr", "fnerrarg", "fnpp"}
+
+// functions whose parameters are of pointer / struct / container / interface type: called with every value of the universe
+var exTypedFuncs = []string{"fnp", "fnst", "fnl", "fnm", "fntm", "fnstr", "fnerrarg", "fnpp", "fnany", "fnval"}
 
 var exSteps = []string{"A", "B", "C", "D", "E", "F", "G", "T", "hidden", "Own", "Hello", "Add", "PtrMethod", "Fails", "Var", "WithCtx", "Val", "String", "Year", "Unix", "Seconds",
 	"k", "a", "x", "b", "key", "0", "1", "2", "99", "Len", "Missing", "exStruct", "Error"}
@@ -418,6 +432,12 @@ func c01Cases(kind string, seed uint64, n int) []c01Case {
 			}
 			out = sel
 		}
+		// always: every value of the universe handed to every function with a typed parameter
+		for _, f := range exTypedFuncs {
+			for _, k := range exNames {
+				out = append(out, c01Case{Src: "{{ " + f + "(" + k + ") }}{{ " + f + "(" + k + ", " + k + ") }}", Ctx: "exotic", Sig: "paths"})
+			}
+		}
 	case "files":
 		// reference cycles between files: these can only end in an error
 		mk := func(sig, entry string, files map[string]string) {
@@ -445,6 +465,11 @@ func c01Cases(kind string, seed uint64, n int) []c01Case {
 		mk("macro-recursion", "a.tpl", map[string]string{"a.tpl": `{% import "lib.tpl" a %}{{ a() }}`, "lib.tpl": `{% macro a(x=a()) export %}{{ x }}{% endmacro %}`})
 		mk("macro-recursion", "a.tpl", map[string]string{"a.tpl": `{% macro a(x) %}{% with y=a(x) %}{{ y }}{% endwith %}{% endmacro %}{{ a(1) }}`})
 		mk("macro-recursion", "a.tpl", map[string]string{"a.tpl": `{% macro a(x) %}{% for q in "ab" %}{% if a(q) %}{% endif %}{% endfor %}{% endmacro %}{{ a(1) }}`})
+		// a cycle value fed back into its own cycle
+		mk("cycle-self", "a.tpl", map[string]string{"a.tpl": `{% for i in "abc" %}{% cycle x as x %}{% endfor %}`})
+		mk("cycle-self", "a.tpl", map[string]string{"a.tpl": `{% for i in "abcd" %}{% cycle "a" "b" as c silent %}{% cycle c as c %}{{ c }}{% endfor %}`})
+		mk("cycle-self", "a.tpl", map[string]string{"a.tpl": `{% for i in "abc" %}{% cycle 1 2 as a silent %}{% cycle a as b silent %}{% cycle b as a %}{{ a }}{{ b }}{% endfor %}`})
+		mk("cycle-self", "a.tpl", map[string]string{"a.tpl": `{% for i in "abc" %}{% cycle x y as x %}{% cycle x as y %}{{ x|upper }}{% endfor %}`})
 		// a lazily included name that cannot be loaded, or does not compile, asked for again and again
 		mk("lazy-missing", "a.tpl", map[string]string{"a.tpl": `{% for n in "aab" %}{% include n if_exists %}{% endfor %}`})
 		mk("lazy-missing", "a.tpl", map[string]string{"a.tpl": `{% set n = "nope.tpl" %}{% include n if_exists %}{% include n if_exists %}{% include n %}`})
